@@ -704,6 +704,11 @@ func (hm *hintMgr) loadHintsByChunk(chunkID int) (datasize uint32) {
 	if len(ck.splits) < 2 {
 		return 0
 	}
+	// lookups by (hash, key) walk the chunks from maxChunkID down: it must cover the hint
+	// files loaded at start-up, not only the chunks written since
+	if chunkID > hm.maxChunkID {
+		hm.maxChunkID = chunkID
+	}
 	return
 }
 
